@@ -21,7 +21,9 @@ fn main() {
         eprintln!("usage: rlharness run <cases> <out> [threads] | trace ... | lock ...");
         std::process::exit(2);
     }
-    std::panic::set_hook(Box::new(|_| {}));
+    if std::env::var("VERIF_SHOW_PANIC").is_err() {
+        std::panic::set_hook(Box::new(|_| {}));
+    }
     match args[1].as_str() {
         "run" => run_file(&args[2], &args[3], args.get(4).and_then(|s| s.parse().ok()).unwrap_or(16)),
         "trace" => trace::main(&args[2..]),
@@ -382,6 +384,18 @@ pub fn exec_op(st: &mut Store, dir: &str, t: &[&str]) -> (String, bool) {
                         stop = true;
                         "panic".to_string()
                     }
+                }
+            }
+            "M" => {
+                // alter one byte of a chunk file underneath the open store
+                use std::os::unix::fs::FileExt;
+                let path = format!("{}/{}", dir, chunk_file_name(pu(t[1])));
+                match std::fs::OpenOptions::new().write(true).open(&path) {
+                    Ok(f) => {
+                        let _ = f.write_all_at(&[pu(t[3]) as u8], pu(t[2]));
+                        "unit".to_string()
+                    }
+                    Err(_) => "nofile".to_string(),
                 }
             }
             "DS" => {
